@@ -252,7 +252,7 @@ class BuildLet(Builds):
     """entity.let(type_, domain, name): a variable over exactly the supplied domain whenever one is supplied - also an empty
     or otherwise falsy one -, and over the registry only when none is (C13, C14)"""
     qual = 'entity:let'
-    props = ('C13', 'C14')
+    props = ('C13', 'C14', 'C01')       # C01: an explicitly supplied domain - also an empty one - is the variable's domain
 
     def modenv(self):
         env = super().modenv()
